@@ -216,6 +216,12 @@ pub(in crate::layer) fn replace_layer_exec_d_programs<P: AsRef<Path>>(
         ));
     }
 
+    // Check for missing files before touching anything: otherwise a failed call leaves an exec.d
+    // directory behind that holds whichever programs happened to be copied first.
+    if let Some(path) = exec_d_programs.values().filter(|path| !path.exists()).min() {
+        return Err(ReplaceLayerExecdProgramsError::MissingExecDFile(path.clone()));
+    }
+
     let exec_d_dir = layer_dir.join("exec.d");
 
     if exec_d_dir.is_dir() {
